@@ -57,6 +57,7 @@ impl RunOut {
         self.add("F5_short_write", f.f5_short_write);
         self.add("F6_write_eintr", f.f6_write_eintr);
         self.add("F8_sigint", f.f8_sigint);
+        self.add("F10_stdin_read_error", f.f10_read_error);
     }
     pub fn absorb_world(&mut self, w: &simcore::World) {
         self.fired(&w.fired);
@@ -388,6 +389,7 @@ fn shrink_candidates(p: &dyn Property, sc: &Scenario) -> Vec<Scenario> {
         c.plan.short_write_pct = 0;
         c.plan.write_eintr_pct = 0;
         c.plan.sigint_at.clear();
+        c.plan.read_error_at = -1;
         c.plan.bufcap = 8192;
         v.push(c);
         if sc.plan.max_chunk != 0 {
